@@ -94,6 +94,51 @@ def run(ctx):
                                   {'op': 'sign', 'input': i, 'kind': m['kind'], 'have': len(sigs), 'need': m['m']})
                 sigchecks.append((raw, i, m, [s.as_der_encoded()[:-1] if s.as_der_encoded()[-1:] == bytes([s.hash_type]) else s.as_der_encoded() for s in sigs],
                                   [k.public_byte for k in m['keys']]))
+    # ---- merged transactions (t1 + t2 / merge_transaction): inputs and outputs are re-ordered and re-signed by the library; the digest of
+    # every input must be the consensus digest of the merged transaction as serialised, and the new signatures must be valid for it
+    for trial in range(40 if T else 10):
+        net = rng.choice(nets) if rng.random() < 0.3 else 'bitcoin'
+        ta, da = txgen.build_api_tx(rng, network=net, nin=rng.randint(1, 3), nout=rng.randint(1, 2), max_n=3)
+        tb, db = txgen.build_api_tx(rng, network=net, nin=rng.randint(1, 2), nout=rng.randint(1, 2), max_n=3)
+        try:
+            ta.sign(); tb.sign()
+            if rng.random() < 0.5:
+                tm = ta + tb
+            else:
+                ta.merge_transaction(tb)
+                tm = ta
+        except Exception as e:
+            ctx.violation('merging two signed transactions raised', {'op': 'merge', 'error': repr(e)[:150]})
+            continue
+        by_in = {(i_[0][::-1], i_[1]): (i_, m_) for dd in (da, db) for i_, m_ in zip(dd['ins'], dd['meta'])}
+        try:
+            ins_m, meta_m = [], []
+            for inp in tm.inputs:
+                i_, m_ = by_in[(inp.prev_txid, inp.output_n_int)]
+                ins_m.append((i_[0], i_[1], i_[2], inp.sequence))
+                meta_m.append(m_)
+            outs_m = [(o.value, o.lock_script) for o in tm.outputs]
+        except KeyError:
+            ctx.violation('a merged transaction has an input that neither part had', {'op': 'merge', 'raw': tm.raw_hex()})
+            continue
+        if sorted(outs_m) != sorted(da['outs'] + db['outs']) or len(ins_m) != len(da['ins']) + len(db['ins']):
+            ctx.violation('a merged transaction does not have the inputs and outputs of its parts', {'op': 'merge', 'raw': tm.raw_hex()})
+            continue
+        dm = {'version': tm.version_int, 'ins': ins_m, 'outs': outs_m, 'wit': None, 'locktime': tm.locktime}
+        rawm = txgen.ser_tx(dm)
+        ctx.count('merged-transaction')
+        for i, m in enumerate(meta_m):
+            try:
+                h = tm.signature_hash(i, 1, tm.inputs[i].witness_type).hex()
+            except Exception as e:
+                h = 'raise:' + type(e).__name__
+            cases.append(('sighash %s %d %s %d %d %s' % (rawm.hex(), i, hexp(m['sc']), m['val'], 1, m['wt']), h, True))
+            sigs = list(tm.inputs[i].signatures)
+            if len(sigs) < m['m']:
+                ctx.violation('fewer signatures than required after merging (the merge re-signs)', {'op': 'merge-sign', 'input': i, 'kind': m['kind'],
+                                                                                                   'have': len(sigs), 'need': m['m']})
+            sigchecks.append((rawm, i, m, [s_.as_der_encoded()[:-1] if s_.as_der_encoded()[-1:] == bytes([s_.hash_type]) else s_.as_der_encoded() for s_ in sigs],
+                              [k.public_byte for k in m['keys']]))
     ctx.compare(cases, 'api')
 
     # every signature must verify under one of the input's keys, against the Lean-computed consensus digest
